@@ -21,3 +21,7 @@ def run(tier, seed, verdict):
                      "property's list of descriptive attributes; the specification follows the code there",
                      "only type / link type / definition / positions / extents / feature data setters are driven on "
                      "NixModel; label, unit, calibration, position, extent, units are driven by the attribute pass"])
+
+
+def replay(path):
+    return mr.replay_file(path)
